@@ -118,6 +118,8 @@ class DetectType:
                                                     and ty_is(result, StringLiteral))),
             "scalars": implies(ty_is(value, int), result is int) and implies(ty_is(value, float), result is float) and implies(ty_is(value, bool), result is bool),
             "null": implies(is_none(value), result is Null),
+            # C02: null is reported only for null - an empty string (or any other falsy scalar) is a value, not an absence
+            "null_only_for_null@C02,C01": implies(result is Null, is_none(value)),
             "list": implies(ty_is(value, list), ty_is(result, DList)),
             "list_items_are_not_direct_values@C13": implies(ty_is(value, list) and seq_len(value) > 0,
                                                             seq_len(local("types")) == seq_len(value) and
